@@ -115,20 +115,7 @@ class Reader(object):
             raise ValueError('IDB not found')
 
         # set timestamp resolution and offset
-        self._divisor = float(1e6)  # defaults
-        self._tsoffset = 0
-        for opt in idb.opts:
-            if opt.code == dpng.PCAPNG_OPT_IF_TSRESOL:
-                # if MSB=0, the remaining bits is a neg power of 10 (e.g. 6 means microsecs)
-                # if MSB=1, the remaining bits is a neg power of 2 (e.g. 10 means 1/1024 of second)
-                opt_val = dpng.struct_unpack('b', opt.data)[0]
-                pow_num = 2 if opt_val & 0b10000000 else 10
-                self._divisor = float(pow_num ** (opt_val & 0b01111111))
-
-            elif opt.code == dpng.PCAPNG_OPT_IF_TSOFFSET:
-                # 64-bit int that specifies an offset (in seconds) that must be added to the
-                # timestamp of each packet
-                self._tsoffset = dpng.struct_unpack('<q' if self.__le else '>q', opt.data)[0]
+        self._divisor, self._tsoffset = self._ts_params(idb)
 
         if idb.linktype in dpng.dltoff:
             self.dloff = dpng.dltoff[idb.linktype]
@@ -141,6 +128,24 @@ class Reader(object):
         self.snaplen = idb.snaplen
         self.filter = ''
         self.__iter = iter(self)
+
+    def _ts_params(self, idb):
+        """timestamp divisor and offset an interface description announces"""
+        divisor = float(1e6)  # defaults
+        tsoffset = 0
+        for opt in idb.opts:
+            if opt.code == dpng.PCAPNG_OPT_IF_TSRESOL:
+                # if MSB=0, the remaining bits is a neg power of 10 (e.g. 6 means microsecs)
+                # if MSB=1, the remaining bits is a neg power of 2 (e.g. 10 means 1/1024 of second)
+                opt_val = dpng.struct_unpack('b', opt.data)[0]
+                pow_num = 2 if opt_val & 0b10000000 else 10
+                divisor = float(pow_num ** (opt_val & 0b01111111))
+
+            elif opt.code == dpng.PCAPNG_OPT_IF_TSOFFSET:
+                # 64-bit int that specifies an offset (in seconds) that must be added to the
+                # timestamp of each packet
+                tsoffset = dpng.struct_unpack('<q' if self.__le else '>q', opt.data)[0]
+        return divisor, tsoffset
 
     @property
     def fd(self):
@@ -195,6 +200,7 @@ class Reader(object):
 
     def __iter__(self):
         self.__f.seek(0)
+        ifaces = []  # (divisor, tsoffset) of the interfaces of the current section, in order of description
         while 1:
             buf = self.__f.read(8)
             if len(buf) < 8:
@@ -205,12 +211,18 @@ class Reader(object):
 
             if blk_type == dpng.PCAPNG_BT_EPB:
                 epb = dpng.EnhancedPacketBlockLE(buf) if self.__le else dpng.EnhancedPacketBlock(buf)
-                ts = self._tsoffset + (((epb.ts_high << 32) | epb.ts_low) / self._divisor)
+                divisor, tsoffset = ifaces[epb.iface_id] if epb.iface_id < len(ifaces) else (self._divisor, self._tsoffset)
+                ts = tsoffset + (((epb.ts_high << 32) | epb.ts_low) / divisor)
                 yield ts, epb.pkt_data
             elif blk_type == dpng.PCAPNG_BT_PB:
                 pb = dpng.PacketBlockLE(buf) if self.__le else dpng.PacketBlock(buf)
-                ts = self._tsoffset + (((pb.ts_high << 32) | pb.ts_low) / self._divisor)
+                divisor, tsoffset = ifaces[pb.iface_id] if pb.iface_id < len(ifaces) else (self._divisor, self._tsoffset)
+                ts = tsoffset + (((pb.ts_high << 32) | pb.ts_low) / divisor)
                 yield ts, pb.pkt_data
+            elif blk_type == dpng.PCAPNG_BT_IDB:
+                ifaces.append(self._ts_params(dpng.InterfaceDescriptionBlockLE(buf) if self.__le else dpng.InterfaceDescriptionBlock(buf)))
+            elif blk_type == dpng.PCAPNG_BT_SHB:
+                ifaces = []  # interface numbering starts again in every section
             elif blk_type == PCAPNG_BT_DSB:
                 dsb = DecryptionSecretBlockLE(buf) if self.__le else DecryptionSecretBlock(buf)
                 ts = -1
